@@ -32,7 +32,7 @@ use proptest::prelude::*;
 use serde::{Deserialize, Serialize};
 use sozu_command_lib::{
     proto::command::{
-        ActivateListener, AddBackend, Cluster, HardStop, ListenerType, LoadBalancingParams, PathRule, QueryCertificatesFilters,
+        ActivateListener, AddBackend, Cluster, HardStop, ListenerType, LoadBalancingParams, PathRule, PathRuleKind, QueryCertificatesFilters,
         QueryClusterByDomain, QueryClustersHashes, QueryMaxConnectionsPerIp, QueryMetricsOptions, Request, RequestHttpFrontend,
         ResponseStatus, ReturnListenSockets, SetMetricDetail, SocketAddress, SoftStop, Status, WorkerResponse,
         request::RequestType, response_content::ContentType,
@@ -56,8 +56,15 @@ use RequestType as T;
 // case
 
 /// K1 (RemoveListener underflow), K3 (answers lost before HardStop), K6 (lease assertion) and K8 (zero flood knob) are repaired in sozu:
-/// generated sequences no longer steer around them (K2, K4, K5, K7 still are known findings).
+/// generated sequences no longer steer around them (K4, K5 still are known findings; K2 and K7: see K2_REPAIRED, K7_REPAIRED).
 const STEER_REPAIRED: bool = false;
+/// K2 (RemoveListener left the listen slab entry behind, SoftStop never finished) is repaired in sozu:
+/// SoftStop is no longer replaced after a RemoveListener and a hang is reported whatever preceded it.
+const K2_REPAIRED: bool = true;
+/// K7 (a listener activated again after DeactivateListener never accepted) is repaired by the same change
+/// (the listen slab entry now lives from Add*Listener to RemoveListener): re-activated listeners get
+/// traffic and routed probes like any other.
+const K7_REPAIRED: bool = true;
 
 #[derive(Clone, Debug, Serialize, Deserialize)]
 pub struct Case {
@@ -952,6 +959,9 @@ fn simple_front(f: &sozu_command_lib::response::HttpFrontend) -> bool {
         && !f.hostname.contains('/')
         && !f.hostname.contains('*')
         && f.hostname.bytes().all(|b| b.is_ascii_lowercase() || b.is_ascii_digit() || b == b'.' || b == b'-')
+        // a request path starts with '/': an EQUALS rule with any other value (the empty string among them)
+        // matches no request, there is nothing to probe
+        && !(f.path.kind == PathRuleKind::Equals as i32 && !f.path.value.starts_with('/'))
 }
 
 fn simple_cluster(c: &Cluster) -> bool {
@@ -1064,7 +1074,7 @@ pub fn scenario(case: &Case) -> CheckResult {
                 let host = PROBE_HOSTS[pick_idx(case.traffic_host.wrapping_add((burst_no as u32).wrapping_mul(0x2545_F491)), PROBE_HOSTS.len())];
                 for a in env.listen.clone() {
                     let open = models.ok.http_listeners.get(&a).map(|l| l.active).unwrap_or(false);
-                    if !open || models.books.returned.contains(&a) || (!case.strict && models.books.reactivated.contains(&(ListenerType::Http as i32, a))) {
+                    if !open || models.books.returned.contains(&a) || (!case.strict && !K7_REPAIRED && models.books.reactivated.contains(&(ListenerType::Http as i32, a))) {
                         continue;
                     }
                     traffic_rounds += 1;
@@ -1307,7 +1317,7 @@ pub fn scenario(case: &Case) -> CheckResult {
             None => true,
         };
         // K7: was the listener deactivated and activated again?
-        let reactivated = models.books.reactivated.contains(&(ListenerType::Http as i32, a));
+        let reactivated = !K7_REPAIRED && models.books.reactivated.contains(&(ListenerType::Http as i32, a));
         if (readded || reactivated) && !case.strict {
             probe_excluded += 1;
             continue;
@@ -1352,7 +1362,7 @@ pub fn scenario(case: &Case) -> CheckResult {
     let body_end = run.sent.len();
     let would_hang = models.softstop_would_hang();
     let mut soft = case.soft;
-    if soft && would_hang && !case.strict {
+    if soft && would_hang && !case.strict && !K2_REPAIRED {
         // K2
         soft = false;
         excluded += 1;
@@ -1377,7 +1387,7 @@ pub fn scenario(case: &Case) -> CheckResult {
         }
         tail_reqs.push(r);
     }
-    if soft && tail_removes > 0 && !case.strict {
+    if soft && tail_removes > 0 && !case.strict && !K2_REPAIRED {
         soft = false;
         excluded += 1;
         rep.class("k2_softstop_replaced");
@@ -1428,7 +1438,7 @@ pub fn scenario(case: &Case) -> CheckResult {
             fail!(format!("C08/worker-panicked:{}", short_loc(&loc)), "the worker thread panicked during {} at {loc}: {msg}", if soft { "SoftStop" } else { "HardStop" });
         }
     } else if soft {
-        let hang_known = would_hang || tail_removes > 0;
+        let hang_known = !K2_REPAIRED && (would_hang || tail_removes > 0);
         fail!(
             format!("C08/softstop-never-finishes:{}", if hang_known { "listener-removed" } else if traffic_rounds > 0 { "after-traffic" } else { "unexplained" }),
             "SoftStop {} was answered with {} processing and {} final answers, the worker thread still runs {} s later with no client connected; RemoveListener commands received: {}, listener slab entries freed by DeactivateListener: {}, listeners added: {}",
@@ -1537,7 +1547,7 @@ fn known_cases() -> Vec<(&'static str, &'static str, Case)> {
     let case = |reqs: Vec<Request>, soft: bool, tail: u8| Case { reqs, bursts: vec![1], blocked: 0, traffic: None, traffic_host: 0, soft, tail, strict: true };
     vec![
         ("seq-fixed-K1-remove-listener-underflow", "C08/worker-panicked:lib/src/server.rs:2121", case(vec![remove(), remove(), remove(), remove(), status()], false, 0)),
-        ("seq-known-K2-softstop-after-remove-listener", "C08/softstop-never-finishes:listener-removed", case(vec![http_listener(), remove()], true, 0)),
+        ("seq-fixed-K2-softstop-after-remove-listener", "C08/softstop-never-finishes:listener-removed", case(vec![http_listener(), remove()], true, 0)),
         ("seq-fixed-K3-answer-lost-before-hardstop", "C08/unanswered-before-hardstop:Status", case(vec![cluster(), status()], false, 1)),
         ("seq-known-K4-failed-frontend-stays-in-view", "C08/view-differs-after-failure:AddHttpFrontend", case(vec![front(), cluster()], false, 0)),
         (
@@ -1546,7 +1556,7 @@ fn known_cases() -> Vec<(&'static str, &'static str, Case)> {
             case(vec![http_listener(), activate(), cluster(), backend(), front(), deactivate(), remove(), http_listener(), activate()], false, 0),
         ),
         (
-            "seq-known-K7-reactivated-listener-never-accepts",
+            "seq-fixed-K7-reactivated-listener-never-accepts",
             "C08/route-differs-from-view:listener-reactivated",
             case(vec![http_listener(), activate(), cluster(), backend(), front(), deactivate(), activate()], false, 0),
         ),
@@ -1629,7 +1639,7 @@ pub fn run(args: &Args) -> i32 {
     ev.assume("Add*Listener commands are sent with active=false, as ListenerBuilder and the CLI build them (activation is the separate ActivateListener step); an Add*Listener that claims active=true is not exercised");
     ev.assume("DeactivateListener.to_scm and ActivateListener.from_scm stay false; after ReturnListenSockets the harness takes and closes the sockets like a main process would and stops probing those addresses");
     ev.assume("master-only verbs (SaveState, LoadState, ListWorkers, ListFrontends, ListListeners, UpgradeMain, UpgradeWorker, SubscribeEvents, ReloadConfiguration, CountRequests, QueryCertificatesFromTheState, QueryHealthChecks) and a request without request_type are outside the domain");
-    ev.assume("known deviations K2, K4, K5, K7 (see the module comment) are steered around when `strict` is false and counted in excluded_known, their strict reproducers are the regression files; K1, K3, K6 and K8 are repaired in sozu and are generated freely");
+    ev.assume("known deviations K4, K5 (see the module comment) are steered around when `strict` is false and counted in excluded_known, their strict reproducers are the regression files; K1, K2, K3, K6, K7 and K8 are repaired in sozu and are generated freely");
     ev.floor(SUB, "has_failure", 0.6);
     ev.floor(SUB, "kinds>=3", 0.9);
     ev.floor(SUB, "burst>=8", 0.2);
